@@ -90,9 +90,39 @@ def roundsThroughFloat : TRule → Bool
   | .gt n | .gte n | .lt n | .lte n => decide (2 ^ 53 < n.natAbs)
   | _ => false
 
+/-- Which of the proposed repairs of the rule-application code (`pending/C06-*.diff`) the tree under
+    check carries.  Each flag removes one MECHANISM from the known-finding region below; landing a fix
+    flips its flag (`pending/C06-*.lean.diff`) and the partial theorems tighten by themselves, the
+    witness theorems (`Proofs/C06W.lean`) keep the region exact. -/
+structure Landed where
+  /-- numeric rules dispatch on the generic ZodIntegerTyped / ZodFloatTyped (every width, unsigned, pointer); exact integer bounds -/
+  numeric : Bool
+  /-- `nonnegative` / `nonpositive` are implemented -/
+  nonneg : Bool
+  /-- string rules dispatch on *ZodString[T] and its wrappers; a format rule adds its checks instead of replacing the schema -/
+  strings : Bool
+  /-- element-count rules dispatch on the generic ZodSlice / ZodMap / ZodRecord -/
+  collections : Bool
+  /-- a pointer field that is not `required` accepts nil whatever its schema type -/
+  ptrNil : Bool
+  /-- pointers to slices / maps of other element types are converted instead of rejected -/
+  ptrContainers : Bool
+  /-- a `required` pointer to a struct without gozod tags must be non-nil -/
+  reqUntagged : Bool
+
+/-- the fixes /repo HEAD carries -/
+def landed : Landed where
+  numeric := false
+  nonneg := false
+  strings := false
+  collections := false
+  ptrNil := false
+  ptrContainers := false
+  reqUntagged := false
+
 /-- KNOWN FINDINGS, single rule: the (rule, field type) cells where the schema built by FromStruct
     does not behave as documented on some boundary value. -/
-def knownSingle (r : TRule) (t : FTy) : Bool :=
+def knownSingleL (L : Landed) (r : TRule) (t : FTy) : Bool :=
   match t.base.cls, t.ptr, r with
   -- numeric fields.  A rule no value of the type can violate (`max=127` on int8, `nonnegative` on
   -- uint) cannot be observed as dropped.  Otherwise: `nonnegative`/`nonpositive` are not implemented
@@ -103,21 +133,24 @@ def knownSingle (r : TRule) (t : FTy) : Bool :=
   | .num, ptr, r =>
     if vacuous r t.base then false
     else match r with
-      | .nonpositive | .nonnegative => true
-      | _ => ptr || t.base.narrowInt || t.base.isUnsigned || (t.base.intShape.isSome && roundsThroughFloat r)
+      | .nonpositive | .nonnegative => !L.nonneg
+      | _ => !L.numeric && (ptr || t.base.narrowInt || t.base.isUnsigned || (t.base.intShape.isSome && roundsThroughFloat r))
   | .str, false, _ => false
-  | .str, true, .min _ | .str, true, .max _ | .str, true, .length _ | .str, true, .regex => true
-  | .str, true, .uuid => true                          -- nil rejected although not `required`
+  | .str, true, .min _ | .str, true, .max _ | .str, true, .length _ | .str, true, .regex => !L.strings
+  | .str, true, .uuid => !(L.strings || L.ptrNil)      -- nil rejected although not `required`
   | .str, true, _ => false
   | .slice, false, .required => false
-  | .slice, false, _ => !t.base.sliceListed
-  | .slice, true, .required => t.base.slicePtrAny      -- every value rejected
-  | .slice, true, _ => true                            -- rule ignored and nil rejected
+  | .slice, false, _ => !L.collections && !t.base.sliceListed
+  | .slice, true, .required => !L.ptrContainers && t.base.slicePtrAny      -- every value rejected
+  | .slice, true, _ =>                                  -- rule ignored; nil rejected; every value rejected
+    !L.collections || !L.ptrNil || (!L.ptrContainers && t.base.slicePtrAny)
   | .map, true, .required =>
-    (match t.base with | .map_string_any => false | _ => true)   -- every value rejected
+    !L.ptrContainers && (match t.base with | .map_string_any => false | _ => true)   -- every value rejected
   | .struct, true, .required =>
-    (match t.base with | .struct => true | _ => false)           -- nil accepted (schema is Any())
+    !L.reqUntagged && (match t.base with | .struct => true | _ => false)             -- nil accepted (schema is Any())
   | _, _, _ => false
+
+def knownSingle (r : TRule) (t : FTy) : Bool := knownSingleL landed r t
 
 /-- KNOWN FINDINGS, two rules: cells whose verdicts are not the conjunction of the two single-rule
     cells.  On `string` a format rule replaces the schema and the other rule is lost in both
@@ -130,6 +163,7 @@ def knownPair (r₁ r₂ : TRule) (t : FTy) : Bool :=
     | .uuid, .length n => decide (n ≠ 36)
     | _, .required => false
     | _, _ => true
+  !landed.strings &&
   match t.base with
   | .string =>
     if t.ptr then r₁.isFormat && r₂.isFormat
@@ -138,6 +172,7 @@ def knownPair (r₁ r₂ : TRule) (t : FTy) : Bool :=
 
 /-- KNOWN FINDINGS, order: the two orders of the tag give different schemas. -/
 def knownOrder (r₁ r₂ : TRule) (t : FTy) : Bool :=
+  !landed.strings &&
   match t.base with
   | .string => r₁.isFormat && r₂.isFormat
   | _ => false
